@@ -171,11 +171,15 @@ theorem stabilizer_density_is_pure_density_matrix (t : Tab) (hv : t.isSymplectic
   ⟨C17B.stabilizerDensity_isDensityMatrix t hv', C17B.stabilizerDensity_isPure t hv'⟩
 
 open scoped ComplexOrder in
-/-- **The model's `is_psd` is complete** (every size `2^n`): an exact matrix that represents a Hermitian positive
-    semidefinite complex matrix passes the elimination test. -/
-theorem exact_psd_test_complete {n : Nat} (m : Mat) (M : Hilbert.DMat n) (hm : Hilbert.Rep n m M) (hM : M.PosSemidef) :
-    isPsd m = true :=
-  C17B.isPsd_of_rep hm hM
+/-- **The model's `is_psd` decides positive semidefiniteness** (every size `2^n`): an exact matrix over ℚ[i] that represents
+    the complex matrix `M` (`Hilbert.Rep`: same entries, basis strings ↔ indices) passes the Hermitian check plus the symmetric
+    `LDL†` elimination **iff** `M` is Hermitian positive semidefinite (Mathlib's `Matrix.PosSemidef`).  Completeness
+    (`psdElim_complete`): leading entry real ≥ 0, a zero pivot forces a zero row, the Schur complement is PSD.  Soundness
+    (`psdElim_sound`): completing the square, `Q(v) = d·|v_k + S/d|² + Q'(v)`.  The code's `is_psd` runs a floating-point
+    Cholesky of `ρ + 1e-15·I`; this is the property that call approximates. -/
+theorem exact_psd_test_correct {n : Nat} (m : Mat) (M : Hilbert.DMat n) (hm : Hilbert.Rep n m M) :
+    isPsd m = true ↔ M.PosSemidef :=
+  C17B.isPsd_rep_iff hm
 
 /-- **`stabOverlap` — the specification of the stabilizer fidelity used in this file — is the value C05's model of
     `inner_product` reports** (every n): `tr(ρ_a ρ_b)` computed in ℚ[i] equals 0 when `inner_product` returns 0 and `2^{-e}`
